@@ -403,7 +403,20 @@ type program struct {
 	isVal   bool
 	init    state
 	threads [][]opSpec
+	// coarse: the resource is built with an equivalence that calls values one apart "the same". An equivalence
+	// thins out event streams; it has no say in whether a concurrent write happened.
+	coarse bool
 }
+
+var oneApart = resource.WithMessageEquivalence(func(x, y proto.Message) bool {
+	xt, _ := x.(*T)
+	yt, _ := y.(*T)
+	if xt == nil || yt == nil {
+		return false
+	}
+	d := xt.DefaultInt32 - yt.DefaultInt32
+	return d >= -1 && d <= 1
+})
 
 func (p program) body() func() {
 	return func() {
@@ -413,8 +426,17 @@ func (p program) body() func() {
 		var e env
 		if p.isVal && !p.init.has {
 			e.val = resource.NewValue() // nothing stored yet
+		} else if p.isVal && p.coarse {
+			e.val = resource.NewValue(resource.WithInitialValue(msg(p.init.v)), oneApart)
 		} else if p.isVal {
 			e.val = resource.NewValue(resource.WithInitialValue(msg(p.init.v)))
+		} else if p.coarse {
+			e.col = resource.NewCollection(oneApart)
+			if p.init.has {
+				if _, err := e.col.Add("a", msg(p.init.v)); err != nil {
+					panic(err)
+				}
+			}
 		} else {
 			e.col = resource.NewCollection()
 			if p.init.has {
@@ -518,6 +540,18 @@ func main() {
 	add(true, state{}, -1, -1, one(vSetOnce(1)), one(vAddFresh(5)))
 	add(true, state{}, 2, -1, one(vAddFresh(1)), one(vAddFresh(5)), one(vAddFresh(10)))
 	add(true, state{}, 2, -1, one(vSetOnce(1)), []opSpec{vAddFresh(5), vAddFresh(10)})
+
+	// ---- resources built with a coarse equivalence (values one apart are "the same")
+	addCoarse := func(isVal bool, init state, threads ...[]opSpec) {
+		p := program{isVal: isVal, init: init, threads: threads, coarse: true}
+		p.name = progName(isVal, init, threads) + " (resource with a coarse equivalence)"
+		h.Sched(p.name, -1, -1, p.body(), hx.StdOracle)
+	}
+	addCoarse(true, state{true, 0}, one(vInc()), one(vInc()))
+	addCoarse(true, state{true, 0}, one(vCAS(0, 7)), one(vInc()))
+	addCoarse(true, state{true, 0}, one(vIncBelow(1)), one(vInc()))
+	addCoarse(false, state{true, 0}, one(cInc()), one(cInc()))
+	addCoarse(false, state{true, 0}, one(cCAS(0, 7)), one(cInc()))
 
 	// ---- both kinds of precondition on one write
 	for _, first := range []bool{false, true} {
